@@ -20,7 +20,7 @@ SERVICE_RND = T(
     [dict(n=40, len=40, procs=7, cfg="users=4,init=40,taxnum=1,taxden=4,slashnum=1,slashden=2"),
      dict(n=40, len=40, procs=7, cfg="users=5,init=100,taxnum=1,taxden=10,slashnum=1,slashden=10,maxtimeout=4,minmult=2,mindep=3,maxctx=6"),
      dict(n=40, len=30, procs=6, cfg="users=3,init=25,taxnum=1,taxden=2,slashnum=1,slashden=1,minmult=1,mindep=0,wait=3")])
-SERVICE_GEN = T([dict(cfg="GEN_Service.cfg", num=15, depth=22, seeds=12)],
+SERVICE_GEN = T([dict(cfg="GEN_Service.cfg", num=10, depth=20, seeds=8)],
                 [dict(cfg="GEN_Service.cfg", num=50, depth=26, seeds=14)])
 SERVICE_SCN = [dict(file="scenarios/service_F4.ndjson", cfg=SERVICE_SCN_CFG),
                dict(file="scenarios/service_F21.ndjson", cfg=SERVICE_SCN_CFG)]
